@@ -1092,8 +1092,14 @@ fn determine_container_main_size(
                             } else if diff < 0.0 {
                                 #[cfg(taffy_verif)]
                                 crate::verif_hooks::note_shrink_floor(item.flex_shrink, item.inner_flex_basis);
-                                let scaled_shrink_factor = f32_max(1.0, item.flex_shrink * item.inner_flex_basis);
-                                diff / scaled_shrink_factor
+                                // The scaled flex shrink factor, having floored the flex shrink factor (not the product) at 1,
+                                // exactly as it is multiplied back in below. A zero-sized flex basis cannot shrink.
+                                let scaled_shrink_factor = f32_max(1.0, item.flex_shrink) * item.inner_flex_basis;
+                                if scaled_shrink_factor > 0.0 {
+                                    diff / scaled_shrink_factor
+                                } else {
+                                    0.0
+                                }
                             } else {
                                 // We are assuming that diff is 0.0 here and that we haven't accidentally introduced a NaN
                                 0.0
